@@ -27,6 +27,7 @@ type Corpus struct {
 	Positions map[string]string   `json:"positions"`
 	Lists     map[string][]string `json:"lists"`
 	Ordered   []string            `json:"ordered"`
+	Presence  []string            `json:"presence"`
 }
 
 // Variant is one tN / oN container of the corpus.
@@ -420,6 +421,30 @@ func (x *Ctx) GNMIPath(ap []string, pkg *reg.Pkg) (*gpb.Path, error) {
 	return p, nil
 }
 
+// IsPresence reports whether the container at schema position pos is a presence container.
+func (x *Ctx) IsPresence(pos string) bool {
+	for _, p := range x.C.Presence {
+		if p == pos {
+			return true
+		}
+	}
+	return false
+}
+
+// PosOf returns the schema position of an abs.Path that starts at the fake root.
+func (x *Ctx) PosOf(p abs.Path) string { return x.posOfAbs(p) }
+
+// Decimal marks a reference JSON string that encodes a decimal64 (compared by lexical
+// class and value rather than byte-for-byte).
+type Decimal string
+
+// SameDecimal compares two decimal strings numerically.
+func SameDecimal(a, b string) bool {
+	fa, err1 := strconv.ParseFloat(a, 64)
+	fb, err2 := strconv.ParseFloat(b, 64)
+	return err1 == nil && err2 == nil && fa == fb
+}
+
 // IsIdentity reports whether corpus type typ holds identity values.
 func IsIdentity(typ string) bool { return typ == "idref" }
 
@@ -468,7 +493,11 @@ func LeafListValue(cs []string, typ string) *gpb.TypedValue {
 
 // JSONValue is the reference RFC 7951 encoding of a canonical scalar as a Go value ready
 // for json.Marshal (json.Number for numbers).
-func JSONValue(c, typ string) interface{} {
+func JSONValue(c, typ string) interface{} { return JSONValueOpt(c, typ, true, false) }
+
+// JSONValueOpt is JSONValue with the identityref module prefix optional and decimal64
+// strings optionally marked as Decimal.
+func JSONValueOpt(c, typ string, idPrefix, markDec bool) interface{} {
 	kind, body, _ := strings.Cut(c, ":")
 	switch kind {
 	case "int8", "int16", "int32", "uint8", "uint16", "uint32":
@@ -476,13 +505,16 @@ func JSONValue(c, typ string) interface{} {
 	case "int64", "uint64":
 		return body
 	case "dec":
+		if markDec {
+			return Decimal(body)
+		}
 		return body
 	case "str":
 		return body
 	case "bool":
 		return body == "true"
 	case "enum":
-		if IsIdentity(typ) {
+		if IsIdentity(typ) && idPrefix {
 			return IdentityModule + ":" + body
 		}
 		return body
